@@ -36,7 +36,12 @@
 EXTENDS Integers, Sequences, FiniteSets, TLC
 
 CONSTANTS NKeys,        \* key ids are 1..NKeys
-          Policy        \* "wc" | "ld"
+          Policy,       \* "wc" | "ld"
+          Mut           \* "none", or the name of ONE rule that is removed (spec mutants: the
+                        \* MC_ZKV_mut_*.cfg instances must be refuted by TLC, which shows that
+                        \* the model theorems bite): "overwrite-keeps-expiry",
+                        \* "modify-clears-expiry", "recreate-keeps-members",
+                        \* "count-ignores-expiry", "expired-visible"
 
 Keys == 1..NKeys
 
@@ -107,8 +112,9 @@ Dead(r, t) == r.exp # 0 /\ r.exp <= t
 SetExp(r, e) == IF Policy = "wc" THEN [r EXCEPT !.exp = e] ELSE [r EXCEPT !.pend = @ \cup {e}]
 
 KVGone(r)    == [r EXCEPT !.has = FALSE, !.v = <<>>, !.exp = 0]
-KVLive(r, t) == IF Dead(r, t) THEN KVGone(r) ELSE r
-KVSet(r, v)  == [r EXCEPT !.has = TRUE, !.v = v, !.exp = 0]      \* whole-value overwrite
+KVLive(r, t) == IF Dead(r, t) /\ Mut # "expired-visible" THEN KVGone(r) ELSE r
+KVSet(r, v)  == IF Mut = "overwrite-keeps-expiry" THEN [r EXCEPT !.has = TRUE, !.v = v]
+                ELSE [r EXCEPT !.has = TRUE, !.v = v, !.exp = 0]      \* whole-value overwrite
 
 \* collection types "h" "l" "s" "z"
 Coll(db, ty, k) == CASE ty = "h" -> db.hs[k] [] ty = "l" -> db.ls[k]
@@ -119,7 +125,8 @@ CEmpty(ty, r) == CASE ty = "h" -> DOMAIN r.f = {} [] ty = "l" -> r.q = <<>>
                    [] ty = "s" -> r.m = {}        [] ty = "z" -> DOMAIN r.sc = {}
 CGone(ty, r) == CASE ty = "h" -> [r EXCEPT !.f = EmptyF, !.exp = 0] [] ty = "l" -> [r EXCEPT !.q = <<>>, !.exp = 0]
                   [] ty = "s" -> [r EXCEPT !.m = {}, !.exp = 0]     [] ty = "z" -> [r EXCEPT !.sc = EmptyF, !.exp = 0]
-CLive(ty, r, t) == IF Dead(r, t) THEN CGone(ty, r) ELSE r
+CLive(ty, r, t) == IF ~Dead(r, t) THEN r
+                   ELSE IF Mut = "recreate-keeps-members" THEN [r EXCEPT !.exp = 0] ELSE CGone(ty, r)
 \* a collection that lost its last element does not exist any more
 CNorm(ty, r) == IF CEmpty(ty, r) THEN CGone(ty, r) ELSE r
 CSize(ty, r) == CASE ty = "h" -> Cardinality(DOMAIN r.f) [] ty = "l" -> Len(r.q)
@@ -168,8 +175,8 @@ DoCollExt(db, ty, op, k, a, t, now) ==
                              ELSE IF CEmpty(ty, lv) THEN Res(db, RInt(0))
                              ELSE Res(PutC(db, ty, k, SetExp(lv, t + a[1])), RInt(1))
        [] op = "ttl"      -> Res(db, RInt(IF Policy = "wc" /\ ~CEmpty(ty, rd) /\ rd.exp # 0 THEN rd.exp - now ELSE -1))
-       [] op = "persist"  -> IF Policy = "ld" THEN Res(db, RErr)
-                             ELSE IF CEmpty(ty, lv) \/ lv.exp = 0 THEN Res(db, RInt(0))
+       [] op = "persist"  -> IF CEmpty(ty, lv) \/ (Policy = "wc" /\ lv.exp = 0) THEN Res(db, RInt(0))
+                             ELSE IF Policy = "ld" THEN Res(db, RErr)     \* not supported (user guide)
                              ELSE Res(PutC(db, ty, k, [lv EXCEPT !.exp = 0]), RInt(1))
 
 DoKV(db, c, k, a, t, now) ==
@@ -211,7 +218,7 @@ DoKV(db, c, k, a, t, now) ==
                     IN Res(PutKV(db, k, [lv EXCEPT !.has = TRUE, !.v = NumSeq(n)]), RInt(n))
        [] c = "append" ->
             LET nv == lv.v \o Val(a[1])
-            IN Res(PutKV(db, k, [lv EXCEPT !.has = TRUE, !.v = nv]), RInt(Len(nv)))
+            IN Res(PutKV(db, k, [lv EXCEPT !.has = TRUE, !.v = nv, !.exp = IF Mut = "modify-clears-expiry" THEN 0 ELSE @]), RInt(Len(nv)))
        [] c = "setrange" -> \* a = <<offset, vid>>
             LET val == Val(a[2])
                 off == a[1]
@@ -221,17 +228,19 @@ DoKV(db, c, k, a, t, now) ==
             IN IF off < 0 THEN Res(db, RErr)
                ELSE IF val = <<>> THEN Res(db, RInt(Len(lv.v)))
                ELSE Res(PutKV(db, k, [lv EXCEPT !.has = TRUE, !.v = nv]), RInt(n))
-       [] c = "del"    -> IF lv.has THEN Res(PutKV(db, k, KVGone(raw)), RInt(1)) ELSE Res(db, RInt(0))
+       \* DEL removes the record whatever its expiry (afterwards the key is absent for every
+       \* observer); only keys that were alive at the log time count in the reply
+       [] c = "del"    -> Res(PutKV(db, k, KVGone(raw)), RInt(IF lv.has THEN 1 ELSE 0))
        [] c = "del2"   -> \* DEL k k2
             LET n1 == IF lv.has THEN 1 ELSE 0
-                d1 == IF lv.has THEN PutKV(db, k, KVGone(raw)) ELSE db
+                d1 == PutKV(db, k, KVGone(raw))
                 r2 == d1.kv[a[1]]
                 l2 == KVLive(r2, t)
-            IN IF l2.has THEN Res(PutKV(d1, a[1], KVGone(r2)), RInt(n1 + 1)) ELSE Res(d1, RInt(n1))
+            IN Res(PutKV(d1, a[1], KVGone(r2)), RInt(n1 + (IF l2.has THEN 1 ELSE 0)))
        [] c = "expire" -> IF a[1] <= 0 THEN Res(db, ROut)
                           ELSE IF ~lv.has THEN Res(db, RInt(0)) ELSE Res(PutKV(db, k, SetExp(lv, t + a[1])), RInt(1))
-       [] c = "persist" -> IF Policy = "ld" THEN Res(db, RErr)
-                           ELSE IF ~lv.has \/ lv.exp = 0 THEN Res(db, RInt(0))
+       [] c = "persist" -> IF ~lv.has \/ (Policy = "wc" /\ lv.exp = 0) THEN Res(db, RInt(0))
+                           ELSE IF Policy = "ld" THEN Res(db, RErr)       \* not supported (user guide)
                            ELSE Res(PutKV(db, k, [lv EXCEPT !.exp = 0]), RInt(1))
 
 DoHash(db, c, k, a, t, now) ==
@@ -244,7 +253,7 @@ DoHash(db, c, k, a, t, now) ==
   IN CASE c = "hget"    -> Res(db, IF a[1] \in DOMAIN rd.f THEN RBulk(rd.f[a[1]]) ELSE RNil)
        [] c = "hmget"   -> Res(db, RVals(<<Opt(a[1]), Opt(a[2])>>))
        [] c = "hexists" -> Res(db, RInt(IF a[1] \in DOMAIN rd.f THEN 1 ELSE 0))
-       [] c = "hlen"    -> Res(db, RInt(Cardinality(DOMAIN rd.f)))
+       [] c = "hlen"    -> Res(db, RInt(Cardinality(DOMAIN (IF Mut = "count-ignores-expiry" THEN raw ELSE rd).f)))
        [] c = "hgetall" -> Res(db, RFV([i \in 1..Len(fs) |-> <<fs[i]>> \o Item(rd.f[fs[i]])]))
        [] c = "hkeys"   -> Res(db, RIds(fs))
        [] c = "hvals"   -> Res(db, RVals([i \in 1..Len(fs) |-> Item(rd.f[fs[i]])]))
@@ -307,7 +316,7 @@ DoSet(db, c, k, a, t, now) ==
       lv  == CLive("s", raw, t)
       rd  == CLive("s", raw, now)
       Put(x) == PutC(db, "s", k, x)
-  IN CASE c = "scard"     -> Res(db, RInt(Cardinality(rd.m)))
+  IN CASE c = "scard"     -> Res(db, RInt(Cardinality((IF Mut = "count-ignores-expiry" THEN raw ELSE rd).m)))
        [] c = "sismember" -> Res(db, RInt(IF a[1] \in rd.m THEN 1 ELSE 0))
        [] c = "smembers"  -> Res(db, RIds(Sorted(rd.m)))
        [] c = "srandmember" -> IF a[1] <= 0 THEN Res(db, ROut) ELSE Res(db, RIds(Take(Sorted(rd.m), a[1])))
@@ -397,8 +406,24 @@ ReadCmds == {"get", "strlen", "exists", "exists2", "mget", "getrange", "ttl",
 ExpiryCmds == {"setx", "setex", "expire", "persist", "ttl", "hexpire", "httl", "hpersist", "lexpire", "lttl",
                "lpersist", "sexpire", "sttl", "spersist", "zexpire", "zttl", "zpersist"}
 
+\* Sub-key id OverLong stands for a field/member name longer than the store accepts (10240
+\* bytes).  A write command that names it - in any argument position, also after valid ones -
+\* answers an error and changes nothing.
+OverLong == 9
+SubArgs(c) == CASE c.c \in {"hset", "hsetnx", "hdel", "hincrby", "sadd", "srem", "zrem"} -> {c.a[1]}
+                [] c.c \in {"hdel2", "sadd2", "srem2", "zrem2"} -> {c.a[1], c.a[2]}
+                [] c.c = "hmset" -> {c.a[1], c.a[3]}
+                [] c.c \in {"zadd", "zincrby"} -> {c.a[2]}
+                [] c.c = "zadd2" -> {c.a[2], c.a[4]}
+                [] OTHER -> {}
 Do(db, c, t, now) ==
-  CASE c.c \in KVCmds -> DoKV(db, c.c, c.k, c.a, t, now)
+  CASE OverLong \in SubArgs(c) ->
+         \* (removing from a collection that does not exist removes nothing, whatever the names)
+         IF c.c \in {"hdel", "hdel2", "srem", "srem2", "zrem", "zrem2"}
+            /\ LET ty == IF c.c \in HCmds THEN "h" ELSE IF c.c \in SCmds THEN "s" ELSE "z"
+               IN CEmpty(ty, CLive(ty, Coll(db, ty, c.k), t))
+         THEN Res(db, RInt(0)) ELSE Res(db, RErr)
+    [] c.c \in KVCmds -> DoKV(db, c.c, c.k, c.a, t, now)
     [] c.c \in HCmds  -> DoHash(db, c.c, c.k, c.a, t, now)
     [] c.c \in LCmds  -> DoList(db, c.c, c.k, c.a, t, now)
     [] c.c \in SCmds  -> DoSet(db, c.c, c.k, c.a, t, now)
